@@ -163,7 +163,28 @@ def run(ctx, idx):
         elif sel[1] != k:
             problems.append("the %s branch selects %s layers instead of NumberToConsider itself" % (br, sel[1]))
     line = fi.node.lineno
-    if problems and any("not sorted along the layer axis" in p_ for p_ in problems) and any(isinstance(c_, ast.Call) and isinstance(c_.func, ast.Attribute) and c_.func.attr in ("partition", "argpartition") for c_ in ast.walk(fi.node)):
+    parts_ = [c_ for c_ in ast.walk(fi.node) if isinstance(c_, ast.Call) and isinstance(c_.func, ast.Attribute) and c_.func.attr in ("partition", "argpartition")]
+    if problems and any("not sorted along the layer axis" in p_ for p_ in problems) and parts_:
+        # ONE partial ordering in front of both cases cannot serve both: a pivot at k - 1 puts the k falsest layers first, the k
+        # truest need the pivot at n - k (the two coincide for two inputs only)
+        par_p = {}
+        for x_ in ast.walk(fi.node):
+            for ch_ in ast.iter_child_nodes(x_):
+                par_p[id(ch_)] = x_
+
+        def _in_branch(n_):
+            up_ = par_p.get(id(n_))
+            while up_ is not None and up_ is not fi.node:
+                if isinstance(up_, (ast.If, ast.IfExp)):
+                    return True
+                up_ = par_p.get(id(up_))
+            return False
+        shared_ = [c_ for c_ in parts_ if not _in_branch(c_)]
+        if len(parts_) == 1 and shared_ and "Truest" in seen and "Falsest" in seen:
+            piv_ = shared_[0].args[1] if K.src(shared_[0].func).startswith("numpy.") and len(shared_[0].args) > 1 else (shared_[0].args[0] if shared_[0].args else None)
+            ctx.violate("C06.c", con, d.module.rel, shared_[0].lineno, "one partial ordering (pivot `%s`) is followed by the Truest slice and by the Falsest slice: a pivot that puts the k falsest layers first leaves the other end unordered (and the other way round), so for three or more inputs one of the two cases averages layers that are not the k truest / falsest" % (K.src(piv_)[:40] if piv_ is not None else "?"))
+            problems = []
+    if problems and any("not sorted along the layer axis" in p_ for p_ in problems) and parts_:
         raise AnalysisError("C06.c: FuzzySelectedUnion orders its layer stack only partially (partition): which layers the slices select depends on the pivot and is outside what this rule reads")
     if problems:
         ctx.violate("C06.c", con, d.module.rel, seen.get("Truest", seen.get("Falsest", (None, None, fi.node)))[2].lineno, "; ".join(problems))
